@@ -360,11 +360,23 @@ class WalletWorld:
             a = addrs[ch.index('fund_addr', len(addrs))]
             v = ch.pick('fund_v', [100000, 5000000, 250000, 12345678, 999, 40000000, 546, 3000])
             outs.append((self.script_of(a), v))
-        self.w.op('fund', wallet=wi.name, n=n, values=[v for _, v in outs])
-        txid = self.chain.fund(outs)
+        shape = self.tx_shape()
+        self.w.op('fund', wallet=wi.name, n=n, values=[v for _, v in outs], **shape)
+        txid = self.chain.fund(outs, **shape)
         if ch.coin('fund_mine', 0.6):
             self.chain.mine()
         self.w.outcome('funded', txid=txid[:16])
+
+    def tx_shape(self):
+        """Version / locktime / sequence of an incoming transaction (what other wallets send looks like this too)."""
+        ch = self.ch
+        shape = {}
+        if ch.coin('in_v1', 0.25):
+            shape['version'] = 1
+        if ch.coin('in_locktime', 0.3):
+            shape['locktime'] = self.chain.tip
+            shape['sequence'] = 0xfffffffe
+        return shape
 
     def op_mine(self):
         self.w.op('mine')
@@ -409,7 +421,7 @@ class WalletWorld:
             return
         a = addrs[ch.index('ua_addr', len(addrs))]
         v = ch.pick('ua_v', [100000, 2000000, 700, 50000000])
-        txid = self.chain.fund([(self.script_of(a), v)])
+        txid = self.chain.fund([(self.script_of(a), v)], **self.tx_shape())
         self.chain.mine()
         n = [i for i, o in enumerate(self.chain.txs[txid].tx.vout) if o.script_pubkey == self.script_of(a)][0]
         self.w.op('utxo_add', wallet=wi.name, value=v, txid=txid[:16], n=n)
